@@ -340,6 +340,30 @@ def clause4_effective(ctx, P, cg):
                 need.append(lambda a, p: a[0] == "cmp" and Q.is_call_to(a[2], "cJSON_SetValuestring") and a[3] == ("null",) and not _polarity_eq(a, p))
             if not all(v.has_atom(nd) for nd in need):
                 swallowed = v
+    # a change that is answered with an error because it could not be persisted is taken back in memory: authentication uses
+    # the in-memory database, and the next successful change of anybody writes that database to disk
+    RESTORERS = INSTALLERS + ("cJSON_ReplaceItemViaPointer",)
+    kept = None
+    nfailw = 0
+    for v in views:
+        order = [(k, i) for k, i in v.calls()]
+        pw = [(k, i) for k, i in order if i.callee == w.name]
+        if not pw:
+            continue
+        k_w, wi = pw[-1]
+        failed = v.has_atom(lambda a, p: a[0] == "cmp" and a[2][0] == "call" and a[2][3] == wi.id and a[3] == ("const", 0) and
+                            ((a[1] == "slt" and p) or (a[1] == "sge" and not p) or (a[1] == "ne" and p) or (a[1] == "eq" and not p)))
+        if not failed:
+            continue
+        nfailw += 1
+        installed = any(k < k_w and P.srcname_of(i.callee or "") in INSTALLERS for k, i in order)
+        restored = any(k > k_w and i.callee and P.srcname_of(i.callee) in RESTORERS for k, i in order)
+        if installed and not restored:
+            kept = v
+    ctx.ob("C20.4 R-COMMIT", cp, "failed-persist-is-taken-back", kept is None and nfailw > 0,
+           "when the credential file cannot be written, change_password() answers with an error but keeps the new hash in the in-memory "
+           "database: the new password authenticates at once, and the next successful change of any account writes it to disk",
+           witness=kept.witness() if kept else None)
     ctx.ob("C20.4 R-RET", cp, "install-failure-fails-the-update", swallowed is None and nsucc > 0,
            "success is answered on a path on which the step that installs the new hash may have failed unnoticed (allocation failure in "
            "cJSON_CreateString / cJSON_ReplaceItemInObject / cJSON_SetValuestring): the caller is told the password changed, the old one "
